@@ -243,7 +243,7 @@ def load() -> dict[str, Any]:
 def _fac(f: tuple[int, int, list[tuple[int, bool] | None]]) -> str:
 	fid, aid, params = f
 	ps = ', '.join('none' if p is None else f"some ⟨{p[0]}, {'true' if p[1] else 'false'}⟩" for p in params)
-	return f'⟨{fid}, {aid}, [{ps}]⟩'
+	return f'⟨{fid}, {aid}, [{ps}], false⟩'
 
 
 def _rows(rows: list[tuple[int, str, Any]]) -> str:
